@@ -7,7 +7,7 @@ LEVEL = "translation_validation"
 NEEDS_RELEASE = True
 RULE = ("parent bit-vector signals (2/4/9-state mixes) are recorded through the Encoder hook and sliced with signals::slice_signal "
         "(hook), exhaustively for every parent width 2..20 x every sub-range [hi:lo] strictly inside it x three kind profiles, and "
-        "randomly up to width 300; debug and release builds; plus the GHW corpus file with 29 sub-range variables loaded through "
+        "randomly up to width 300; debug and release builds; sequences of GhwSignalTracker::register_bit_vec requests (hook) with several parent vectors, interleaved and repeated sub-ranges and scalars against an oracle for which variables share a signal and where each sub-range lies (first element = most significant bit); plus the GHW corpus file with 29 sub-range variables loaded through "
         "the public API. Oracle: at every change of the parent the slice equals the substring, reported in the smallest sufficient "
         "kind, and changes only when the sub-range changes. Non-trivial: the sub-range is a proper sub-range and the parent has "
         ">= 2 changes; distinct (width, hi, lo, values).")
@@ -50,6 +50,68 @@ def mk_changes(rng, width, profile, n):
     return changes
 
 
+def reg_case(rng):
+    """requests to GhwSignalTracker::register_bit_vec: parents first (in any order relative to other parents'
+    sub-ranges), then sub-ranges of several parents interleaved, repeated requests, scalars"""
+    parents = []
+    nid = 1
+    for _ in range(rng.randint(1, 4)):
+        w = rng.choice([2, 3, 4, 8, 9, 16])
+        parents.append((nid, nid + w - 1, rng.random() < 0.3))
+        nid += w + rng.choice([0, 0, 1, 2])
+    max_id = nid + 3
+    reqs = []
+    pending = list(parents)
+    rng.shuffle(pending)
+    declared = []
+    for _ in range(rng.randint(2, 14)):
+        r = rng.random()
+        if pending and (r < 0.35 or not declared):
+            p = pending.pop()
+            declared.append(p)
+            reqs.append(p)
+        elif declared and r < 0.9:
+            p = rng.choice(declared)
+            a = rng.randint(p[0], p[1])
+            b = rng.randint(a, p[1])
+            reqs.append((a, b, p[2]))
+        else:
+            i = rng.randint(nid, max_id)
+            reqs.append((i, i, i % 2 == 0))      # one type per scalar signal
+    # oracle
+    refs = []
+    table = []
+    count = 0
+    vec_of = {}      # signal id -> parent
+    scalar = {}
+    alias = {}
+    pref = {}
+    for (a, b, two) in reqs:
+        par = next((p for p in pref if p[0] <= a and b <= p[1]), None)
+        if par is not None:
+            if (a, b) == (par[0], par[1]):
+                refs.append(pref[par])
+            else:
+                key = (par, par[1] - a, par[1] - b)
+                if key not in alias:
+                    alias[key] = count
+                    table.append("%d:%d:%d:%d" % (count, key[1], key[2], pref[par]))
+                    count += 1
+                refs.append(alias[key])
+        elif a == b:
+            if a not in scalar:
+                scalar[a] = count
+                count += 1
+            refs.append(scalar[a])
+        else:
+            pref[(a, b, two)] = count
+            refs.append(count)
+            count += 1
+    line = "ghwreg %d %s" % (max_id, ",".join("%d:%d:%d" % (a, b, 1 if t else 0) for a, b, t in reqs))
+    exp = "refs=%s aliases=%s" % (",".join(map(str, refs)), ",".join(table) or "-")
+    return line, exp, len(table) >= 2
+
+
 def run(res, rng, tier, model_ok, replay=None):
     cases = []
     if replay:
@@ -76,6 +138,9 @@ def run(res, rng, tier, model_ok, replay=None):
             ch = mk_changes(rng, width, rng.choice([[2], [4], [9], [2, 4, 9], [2, 9]]), rng.randint(2, 8))
             line = "slice %d %d %d %s" % (width, msb, lsb, ",".join("%x:%s" % c for c in ch))
             cases.append({"line": line, "expect": expected_slice(width, msb, lsb, ch), "key": line, "klass": "random-wide"})
+        for _ in range(600 if tier == "quick" else 8000):
+            line, exp, nt = reg_case(rng)
+            cases.append({"line": line, "expect": exp, "key": line if nt else None, "klass": "alias-registration"})
     vcdfam.run_both(res, cases, "c13d", model_ok, release=False)
     rel = [dict(c, klass=c.get("klass", "") + "-release") for c in cases]
     vcdfam.run_both(res, rel, "c13r", model_ok, release=True)
